@@ -22,6 +22,25 @@ CHECKS = {
         design="§2 C04", engine="crosshair"),
 }
 
+LEVEL_TEXT_B = ("solver-decided language and lexer obligations regenerated on every run from the Lark object the repository builds: "
+                "grammar-vs-statement-language equivalence and terminal languages for words of every length (z3 regular-expression "
+                "theory), lexer lemmas for all lexemes up to a stated length in every reachable (LALR state, follow set); ")
+NOTE_B = ("trusted: z3 5.1.0 answers; Lark's documented semantics of rule->tree construction and scanner order (model replayed on the "
+          "real scanner / parser for every witness and validated on all shipped .dec files); the hand-written statement-language "
+          "specification; composition of lexer lemmas and grammar equivalence is a pen-and-paper step; " + NOTE_A)
+CHECKS["C01"] = dict(
+    text=LEVEL_TEXT_B + "plus " + LEVEL_TEXT_A + " (end-to-end through the real parse(): blocks, lines, daughters over the whole "
+         "alphabet, all 135 models x PHOTOS x parameter-list variants).",
+    note=NOTE_B, technique="z3 regex inclusion + symbolic backtracking-matcher lexer lemmas (SMT) on the captured Lark object; "
+    "CrossHair symbolic execution of the parser post-processing; witnesses replayed on the real parser", design="§0, §2 C01", engine="smt+crosshair")
+CHECKS["C06"] = dict(
+    text=LEVEL_TEXT_B + "the MODEL_NAME terminal is the one produced by the real edit_terminals callback, for the published list and for "
+         "adversarial families of user-registered names; plus " + LEVEL_TEXT_A + " (acceptance of every name in 12 contexts, rejection of "
+         "near-miss words).",
+    note=NOTE_B, technique="SMT lexer lemmas (symbolic regex matcher over the real scanner order, incl. \\b and alternation order) per "
+    "registered-name family; CrossHair on parse() for accept/reject; witnesses replayed on the real scanner and parser",
+    design="§2 C06", engine="smt+crosshair")
+
 PENDING_REASON = "check not built yet in this session (planned, see DESIGN.md §2); not claimed until its quick command runs clean"
 NA = {
     "C20": "quantifies over process histories, interpreter starts and PYTHONHASHSEED values of code that must run untraced "
